@@ -58,6 +58,30 @@ type c18Write struct {
 	DstPort  int     `json:"dst_port"`
 	Dst16    bool    `json:"dst_16byte"`
 	UseMaker bool    `json:"client4_maker"` // check client4.MakeRawUDPPacket instead (fields only)
+	Steer    int     `json:"steer,omitempty"` // >0: two payload octets are set so that the UDP checksum computes to c18Targets[Steer-1]
+}
+
+// checksum values worth hitting on purpose: a computed zero (transmitted as 0xFFFF), and values whose neighbours
+// differ by a carry in either octet
+var c18Targets = []uint16{0x0000, 0x0001, 0x00ff, 0xff00, 0x8000, 0xfffe, 0x0100}
+
+// c18Steer sets one aligned 16-bit word of the payload so that the RFC 768 checksum of the datagram is target.
+func c18Steer(payload []byte, src, dst [4]byte, sport, dport int, target uint16) []byte {
+	p := append([]byte{}, payload...)
+	if len(p) < 2 {
+		return p
+	}
+	i := (len(p) - 2) &^ 1
+	p[i], p[i+1] = 0, 0
+	l := 8 + len(p)
+	pseudo := []byte{src[0], src[1], src[2], src[3], dst[0], dst[1], dst[2], dst[3], 0, 17, byte(l >> 8), byte(l)}
+	udp := []byte{byte(sport >> 8), byte(sport), byte(dport >> 8), byte(dport), byte(l >> 8), byte(l), 0, 0}
+	rest := refip.Sum16(pseudo, udp, p)
+	// one's-complement: rest + x = ^target  ⇒  x = ^target + ^rest
+	x := uint32(^target) + uint32(^rest)
+	x = x&0xffff + x>>16
+	p[i], p[i+1] = byte(x>>8), byte(x)
+	return p
 }
 
 var c18w = newChk("C18", "write-frame",
@@ -71,6 +95,9 @@ var c18w = newChk("C18", "write-frame",
 		copy(src[:], c.BoundIP)
 		var dst4 [4]byte
 		copy(dst4[:], c.DstIP)
+		if c.Steer > 0 {
+			c.Payload = c18Steer(c.Payload, src, dst4, c.BoundPt, c.DstPort, c18Targets[(c.Steer-1)%len(c18Targets)])
+		}
 		var frame []byte
 		if c.UseMaker {
 			srcIP := net.IP(src[:])
@@ -142,6 +169,12 @@ var c18w = newChk("C18", "write-frame",
 			if want == 0xffff {
 				rec.Class("udp checksum computes to zero")
 			}
+			if c.Steer > 0 && len(c.Payload) >= 2 {
+				rec.Class("checksum steered to a chosen value")
+				if t := c18Targets[(c.Steer-1)%len(c18Targets)]; want != t && !(t == 0 && want == 0xffff) {
+					return obs.Failf("C18/harness", fmt.Sprintf("steered checksum %04x", t), "%04x", want)
+				}
+			}
 		}
 		if len(c.Payload)%2 == 1 {
 			rec.Class("odd payload length")
@@ -184,6 +217,13 @@ func TestC18_WriteLengths(t *testing.T) {
 			} {
 				b.Payload = p
 				c18w.one(t, b)
+				if n >= 2 && !b.UseMaker {
+					for st := 1; st <= len(c18Targets); st++ {
+						b.Steer = st
+						c18w.one(t, b)
+					}
+					b.Steer = 0
+				}
 			}
 		}
 	}
@@ -203,6 +243,9 @@ func genC18Write() *rapid.Generator[c18Write] {
 		}
 		if rapid.IntRange(0, 3).Draw(t, "ffaddr") == 0 {
 			c.DstIP = []byte{255, 255, 255, 255}
+		}
+		if rapid.IntRange(0, 3).Draw(t, "steer") == 0 {
+			c.Steer = rapid.IntRange(1, len(c18Targets)).Draw(t, "target")
 		}
 		return c
 	})
